@@ -246,6 +246,29 @@ def run(ctx, prog):
     ctx.assume('the F / NICV / SNR formulas (degrees of freedom, weights) are numeric and not decided')
     d1(ctx, prog)
     n2 = d2(ctx, prog)
+    # D7: every class-wise accumulator (counts, sums, sums of squares) receives exactly one additive contribution per accepted
+    # update path, whichever kernel the timings select: the C01 accumulation rules instantiated for the partitioned classes
+    ctx.rule('C04-D7', 'class counts / sums / sums of squares are accumulated exactly once per batch on every path and by every selectable kernel (C01 accumulation rules on the partitioned classes)')
+    from . import c01
+    sub = type(ctx)(ctx.prop, ctx.tier, ctx.seed)
+    us, _ = c01.units(prog)
+    n7 = 0
+    for u in us:
+        m_ = prog.resolve_method(u.cls, '_compute_metric')
+        if m_ is None or m_.mod.name != PART or u.cls.mod.name != PART:
+            continue
+        u.guard = c01.find_guard(prog, u)
+        u.acc = universe.accumulators(prog, u.cls, u.init)
+        entry = prog.resolve_method(u.cls, u.update)
+        later, fl = c01.d3_d4(sub, prog, u, entry)
+        closure = c01.closure_funcs(prog, fl, entry)
+        c01.d1(sub, prog, u, later, fl, closure, universe.init_closure(prog, u.cls, u.init))
+        n7 += 1
+    for o in sub.obs:
+        if o.rule in ('C01-D1',):
+            o.rule = 'C04-D7'
+            ctx._add(o)
+    ctx.floor('partitioned classes under the accumulation rules', n7, 3)
     n3 = infnan_rule(ctx, prog, 'C04-D3', {PART})
     ctx.rule('C04-D5', 'extent homogeneity: the size of the declared class set (which counts empty classes) enters each metric with total exponent 0')
     ctx.floor('partitioned classes whose compute closure is checked for purity', d2_purity(ctx, prog), 6)
